@@ -33,7 +33,8 @@ extra="""%fn read_string async
                 && @old.inp().skip(leb_end(@old.inp())) =~= string_bytes(&res->Ok_0) + @new.inp() }),
             res is Err ==> (cp_no_varint(@old.inp(), 5) || cp_varint_val::<u32>(@old.inp()) > @old.inp().len() - leb_end(@old.inp())),
             rstate_eq(final(self), old(self)),
-    %fsubst /unsafe \\{ String::from_utf8_unchecked\\((\\w+)\\) \\}/ => vstring_from_utf8_unchecked(\\1)
+    %fsubst? /Ok\\(unsafe \\{ String::from_utf8_unchecked\\((\\w+)\\) \\}\\)/ => Ok(vstring_from_utf8_unchecked(\\1))
+    %fsubst? /String::from_utf8\\((\\w+)\\)\\.map_err\\(\\|\\w+\\| \\{(?s:.*?)\\n\\s*\\}\\)/ => vstring_from_utf8_checked(\\1)
 """
 # the sync unit has its own read_string entry (same contract, different body rewrites): drop it, use `extra`
 a=out.index("%fn read_string async")
